@@ -468,4 +468,7 @@ def run(prog: Program, col: Collector, tier: str, refs: Optional[Refs] = None, c
     col.rule("R10.5", "eager MarkovProduct: scan with the state pairs, plain product over time, or the n-fold power of the product op", floor=4)
     cat = cat or Catalogue(prog, refs)
     _markov_product_rule(prog, col, refs, cat)
+    # R10.6: the scan contracts through the log-einsum kernels for the (logaddexp, add) semiring (shared with C02 R02.11 / C15 R15.8)
+    from . import numerics
+    numerics.run(prog, col, refs, cat, rule_log="R10.6", rule_safe=None)
     return col
